@@ -1,8 +1,9 @@
 import CbiVerif.Model.Climb
+import CbiVerif.PP.CharConst
 import CbiVerif.Generated.Tables
 /-!
 Model of `codebasin.preprocessor.ExpressionEvaluator` (C02), as the code is after the `fix:` commits
-D1–D5 and D7: Python-int arithmetic wrapped to 64 bits by `_c_int` with a signedness flag
+D1–D7: Python-int arithmetic wrapped to 64 bits by `_c_int` with a signedness flag
 (`np.int64` / `np.uint64`).
 
 * `cInt`                      = `_c_int(value, unsigned)`
@@ -11,7 +12,8 @@ D1–D5 and D7: Python-int arithmetic wrapped to 64 bits by `_c_int` with a sign
 * `applyTernary`              = the `?` branch of `expression()`
 * `literal`                   = the integer-constant branch of `term()` (regex split, bases 16/2/8/10,
                                 suffixes; `np.int64(v)`/`np.uint64(v)` raise `OverflowError` when `v` does not fit)
-* `leafWith`                  = `term()` : integer constant | character constant | call | identifier
+* `leafWith`                  = `term()` : integer constant | character constant (`PP.characterValue` =
+                                `_character_value`) | call | identifier
 * `opsN`, `cbiExpr`, `cbiEval` = `expression()` / `evaluate()`: the generic precedence climbing of
                                 `Model/Climb.lean` instantiated with the operations above and with the
                                 **generated** tables `CbiVerif.Gen.binaryOps/unaryOps`.
@@ -191,9 +193,10 @@ def leafWith (args : List Tok → Except EErr (List Tok)) (ts : List Tok) : Res 
       | .ok v => .ok (v, rest)
       | .error e => .error e
     else if t.kind == .chr then
-      match t.text.toList with
-      | [c] => .ok (⟨false, c.toNat⟩, rest)        -- np.int64(ord(token))
-      | _ => .error eType                          -- ord() of a string of length ≠ 1
+      match characterValue t.text.toList with      -- np.int64(_character_value(token))
+      | .ok n => .ok (⟨false, n⟩, rest)
+      | .error .type_ => .error eType              -- ord() of a string of length ≠ 1
+      | .error .value => .error eValue             -- unknown escape sequence / escape above 255
     else if t.kind == .ident then
       match rest with
       | p :: r1 =>
